@@ -135,7 +135,9 @@ def replay_mode(R, binp):
         print("replay %s %s %s (%s): original file verifies=%s, altered file verifies=%s %s" % (
             res["source"]["kind"], res["source"]["version"], inner["mutation"]["path"], inner["mutation"]["alt"],
             res["original_verifies"], res["mutated_verifies"], res.get("detail", "")))
-        if res["original_verifies"] == "ok" and res["mutated_verifies"] == "ok":
+        if res.get("panic_probe") or res["mutated_verifies"] == "panic":
+            R.violation(rp.get("key", "panic:verify"), "replayed alteration makes verification panic: %s" % (res.get("panic_probe") or res.get("detail")), inner)
+        elif res["original_verifies"] == "ok" and res["mutated_verifies"] == "ok":
             R.violation(rp.get("key", "mutation-verifies"), "replayed mutation still verifies: %s %s" % (inner["mutation"]["path"], inner["mutation"]["alt"]), inner)
     elif inner.get("shape") and inner.get("combine_tamper"):
         rc, out, od = vp.go_harness(PKG, run="TestCombineTamper", env_extra=env)
